@@ -32,16 +32,18 @@ MinOddCycles(T) ==
   LET odd == {C \in CycleSpaceOf(G) : Odd(C, T)}
       m == Min({Wt(G, C) : C \in odd})
   IN {C \in odd : Wt(G, C) = m}
-Phase(j) ==
+\* PhaseC(j, C): phase k = phase + 1 uses the support that currently sits at position j and emits the cycle C
+PhaseC(j, C) ==
   /\ pc = "run" /\ phase < Len(S)
   /\ j \in (phase + 1)..Len(S)
   /\ LET k == phase + 1
          Sw == [S EXCEPT ![k] = S[j], ![j] = S[k]]          \* swap
-     IN \E C \in MinOddCycles(Sw[k]) :
+     IN /\ C \in MinOddCycles(Sw[k])
         /\ S' = [l \in 1..Len(S) |-> IF l > k /\ Odd(C, Sw[l]) THEN XorS(Sw[l], Sw[k]) ELSE Sw[l]]
         /\ out' = Append(out, C) /\ basis' = Insert(C, basis)
   /\ phase' = phase + 1
   /\ UNCHANGED <<pc, G, forest>>
+Phase(j) == \E C \in (IF phase < Len(S) /\ j \in (phase + 1)..Len(S) THEN MinOddCycles(S[j]) ELSE {}) : PhaseC(j, C)
 Finish == /\ pc = "run" /\ phase = Len(S) /\ pc' = "idle"
           /\ UNCHANGED <<G, out, basis, phase, S, forest>>
 SNext == (\E j \in 1..Len(S) : Phase(j)) \/ Finish
